@@ -675,7 +675,12 @@ func runC19(c *Ctx) {
 	// R14 (shared with C06.R9): the extension pairs a decoder collects are distinct objects (not n pointers to one variable)
 	checkFreshElements(c, "R14")
 	// R15 (shared with C05.R1): an advertised extension is served by the file-system call it stands for
-	c.withOnlyKeys("R1", "R15", []string{"sshFxpExtendedPacket"}, func() { runC05(c) })
+	// R16 (shared with C06.R1): the VERSION and INIT packets carry (name, data) pairs — what HasExtension reports
+	c.withOnlyKeys("R1", "R16", []string{"sshFxVersionPacket", "sshFxInitPacket"}, func() { runC06(c) })
+	// (C05 compares with package os on the posix builds only: the statvfs stub of the others answers op-unsupported)
+	if goos := goosOf(c.P.Cfg); goos != "windows" && goos != "plan9" {
+		c.withOnlyKeys("R1", "R15", []string{"sshFxpExtendedPacket"}, func() { runC05(c) })
+	}
 }
 
 // checkDecodedOnlyIfConfigured (C19.R7): "advertised ⊆ served" is R5; this is the converse.  The extended-request
